@@ -36,3 +36,46 @@ def rangeiter(s, body_abs):
     if s["form"] == "=":
         return [atom("var %s int" % x), loop(s["g"], [atom("%s = ɪʇ.Current()" % x), use], body_abs), use]
     return [loop(s["g"], [atom("%s := ɪʇ.Current()" % x), use], body_abs)]
+
+
+# ------------------------------------------------------------------ range over a built-in collection (rewriter/range.go)
+CTOR = {"str": "NewStringIter", "ints": "NewSliceIter", "anys": "NewSliceIter", "arr": "NewSliceIter", "map1": "NewMapIter",
+        "map2": "NewMapIter", "chan": "NewChanIter", "n": "NewIntegerIter"}
+
+
+def itname(arg):
+    """Canonical name of the generated iterator variable: the real one carries a per-file counter, both sides are renamed
+    after the constructor call that initialises the variable."""
+    return "ɪʇ<%s>" % norm(arg)
+
+
+def rangestmt(s, body_abs):
+    """    for k, v (:)= range x { B }   =>   ɪʇN := seq.NewXIter(x); for ɪʇN.MoveNext() { k, v (:)= ɪʇN.Current().Key, ɪʇN.Current().Val; {B} | B }
+    (x[:] for arrays; no binding statement when both variables are absent or blank)."""
+    import pgen
+    parts = pgen.Render.range_parts(s)
+    kind, form = s["kind"], s["form"]
+    arg = parts["src"] + ("[:]" if kind == "arr" else "")
+    it = itname(arg)
+    k, v = parts["k"], parts["v"]
+    inner = []
+    for l in parts["inner"]:
+        if isinstance(l, tuple):
+            inner.append({"s": "if", "init": None, "c": norm(l[1]), "then": [atom(x) for x in l[2]], "else": None})
+        else:
+            inner.append(atom(l))
+    body = inner + body_abs
+    tok = ":=" if form.endswith(":=") else "="
+    cur = "%s.Current()" % it
+    kv = {"kv": "%s, %s %s %s.Key, %s.Val" % (k, v, tok, cur, cur), "k": "%s %s %s.Key" % (k, tok, cur),
+          "_v": "%s %s %s.Val" % (v, tok, cur)}.get(form.rstrip(":="))
+    if form == "none":
+        fbody = body
+    elif tok == ":=":
+        fbody = [atom(kv), {"s": "block", "b": body}]
+    else:
+        fbody = [atom(kv)] + body
+    return ([atom(l) for l in parts["pre"]] +
+            [atom("%s := SEQ.%s(%s)" % (it, CTOR[kind], arg)),
+             {"s": "for", "init": None, "c": "%s.MoveNext()" % it, "post": None, "b": fbody}] +
+            [atom(l) for l in parts["post"]])
